@@ -40,7 +40,7 @@ re-confirmed by `seeded_eval.py` in the scratch worktree before the change was k
 against the worktree (`VERIF_REPO=<worktree> ./check …`, equivalent to applying the patch to /repo and undoing
 it; /repo itself was never touched). {n} changes so far; {first} were caught by the checks as they stood, the
 others were missed (or would have been) and led to the strengthening noted in the last column, after which
-all but two (the exceptions are C15-event-handler-table-published-before-filled and C19-shared-update-reply-object, see their notes and section 9) are caught within the quick budget (one of them, C02-args-marker-only-then-marker-set, on the tree it
+all but one (the exception is C15-event-handler-table-published-before-filled, see its note and section 9) are caught within the quick budget (one of them, C02-args-marker-only-then-marker-set, on the tree it
 was written for: it led to fix 5fd486c, which makes the same edit harmless):
 
 | seeded change | breaks | files | detected by (oracle) | note |
